@@ -52,7 +52,9 @@ func (c10) ID() string { return "C10" }
 func (c10) Strategy(rng *simrt.Rand) simrt.Strategy { return pickStrategy(rng, 60) }
 
 func pickStrategy(rng *simrt.Rand, est int) simrt.Strategy {
-	switch rng.Intn(8) {
+	switch rng.Intn(9) {
+	case 8:
+		return simrt.Strategy{Kind: "syncpct", Depth: 1 + rng.Intn(3), EstLen: est/3 + 4}
 	case 0, 1:
 		return simrt.Strategy{Kind: "uniform"}
 	case 2:
